@@ -84,6 +84,8 @@ FqFinishA  == FqFinishEn(m)   /\ m' = FqFinish(m)   /\ UNCHANGED src
 IsLines == m.kind = "lines"
 IsSeek  == m.kind = "seeksrc"
 IsParser == ~IsLines /\ ~IsSeek
+SIntrA     == IsSeek /\ SIntrEn(m) /\ m' = SIntr(m) /\ UNCHANGED src
+LIntrA     == IsLines /\ LIntrEn(m) /\ m' = LIntr(m) /\ UNCHANGED src
 SReadA     == IsSeek /\ SReadEn(m) /\ m' = SRead(m) /\ UNCHANGED src
 SBackA     == IsSeek /\ SBackEn(m) /\ m' = SBack(m) /\ UNCHANGED src
 LFillA(k)  == IsLines /\ LFillEn(m, k) /\ m' = LFill(m, k) /\ UNCHANGED src
@@ -91,7 +93,7 @@ LScanA     == IsLines /\ LScanEn(m)    /\ m' = LScan(m)    /\ UNCHANGED src
 LEofA      == IsLines /\ LEofEn(m)     /\ m' = LEof(m)     /\ UNCHANGED src
 
 ParserNext == ~IsLines /\ ~IsSeek /\ (SniffA \/ FaBeginA \/ FaSeqLineA \/ FqBeginA \/ FqSeqLineA \/ FqQualLineA \/ FqFinishA)
-Next == ParserNext \/ (\E k \in 1..MaxCap : LFillA(k)) \/ LScanA \/ LEofA \/ SReadA \/ SBackA
+Next == ParserNext \/ (\E k \in 1..MaxCap : LFillA(k)) \/ LScanA \/ LEofA \/ SReadA \/ SBackA \/ SIntrA \/ LIntrA
 Spec == Init /\ [][Next]_vars
 
 \* --------------------------------------------------------------- invariants
@@ -135,9 +137,9 @@ LinesKeep == IsLines => FlattenSeq(m.lines) \o m.line \o m.buf = SubSeq(m.data, 
 LinesAgree == (IsLines /\ m.done) => m.lines = Lines(m.data)
 
 \* termination: every step decreases the measure
-LMu(x) == 2 * ((Len(x.data) - x.pos) + Len(x.buf)) + (IF x.buf = << >> THEN 1 ELSE 0)
+LMu(x) == 3 * (2 * ((Len(x.data) - x.pos) + Len(x.buf)) + (IF x.buf = << >> THEN 1 ELSE 0)) + (MaxIntr - x.ni)
 Progress == [][IF IsLines THEN m'.done \/ LMu(m') < LMu(m)
-                ELSE IF IsSeek THEN m'.done \/ (m.phase = "read" /\ m'.phase = "back")
+                ELSE IF IsSeek THEN m'.done \/ (m.phase = "read" /\ m'.phase = "back") \/ m'.ni > m.ni
                 ELSE m'.done \/ Mu(m') < Mu(m)]_vars
 
 \* get_kind_seek on a source at any offset: the position is unchanged and the answer is the
